@@ -315,6 +315,17 @@ def run_workload(tape, *, faults=True, fmt_args=False, oversize=True, cancels=Tr
 
     HARNESS_TIMEOUT = 0.5
     ec = EtherCat("sim0")
+
+    # the packet index is a 30-bit random number; bias the draw towards indices that are
+    # still in flight so that the collision retry of roundtrip_packet is exercised
+    def collide(a, b):
+        if (a, b) == (2000, 1000000000) and ec.wait_futures and \
+                tape.chance("collide/packet-index", 15):
+            world.count("probe/packet-index-collision-offered")
+            keys = sorted(ec.wait_futures)
+            return keys[tape.draw("collide/which", len(keys))]
+        return None
+    env.collide["rand/ethercat"] = collide
     client_tasks = []
     stalled = []
 
